@@ -59,6 +59,7 @@ type BondgoRequirements struct {
 	Procr  map[int]*ProcRequirements
 	IOr    map[int]*IORequirements
 	Chanr  map[int]*ChanRequirements
+	Chano  map[int][]int // For every processor the channels it connected to, in the order of its own channel numbers
 	Shrdr  map[int]*SharedMemRequirements
 }
 
@@ -143,6 +144,7 @@ func (reqmnt *BondgoRequirements) Init_Requirements(cfg *BondgoConfig) {
 	reqmnt.Procr = make(map[int]*ProcRequirements)
 	reqmnt.IOr = make(map[int]*IORequirements)
 	reqmnt.Chanr = make(map[int]*ChanRequirements)
+	reqmnt.Chano = make(map[int][]int)
 	reqmnt.Shrdr = make(map[int]*SharedMemRequirements)
 }
 
@@ -290,6 +292,7 @@ UB:
 				}
 				if !present {
 					cchan.Connected = append(cchan.Connected, componenti)
+					reqmnt.Chano[componenti] = append(reqmnt.Chano[componenti], targetid)
 				}
 			}
 
